@@ -5,6 +5,7 @@ import (
 	"crypto/x509"
 	"fmt"
 	"net"
+	"runtime"
 	"sync"
 	"sync/atomic"
 	"testing"
@@ -38,9 +39,10 @@ type c18Case struct {
 type c18Target struct {
 	addr      string
 	mtls      bool
-	validCfg  *tls.Config // what a conforming client uses
-	noCertCfg *tls.Config // trusts the server but presents no certificate
-	entered   *sync.Map   // msgID -> true (plain servers only)
+	validCfg  *tls.Config      // what a conforming client uses
+	noCertCfg *tls.Config      // trusts the server but presents no certificate
+	sibling   *tls.Certificate // client certificate of ANOTHER deployment made by the same tool (same subject, same serial, different CA key)
+	entered   *sync.Map        // msgID -> true (plain servers only)
 	onclose   *int64
 	dir       *dirHandle
 }
@@ -115,6 +117,14 @@ func c18Get(name string) (*c18Target, error) {
 	if err != nil {
 		return nil, err
 	}
+	// a sibling deployment: the repository's generator run a second time
+	func() {
+		defer func() { _ = recover() }()
+		_, sib := testdirectory.GetTLSConfig(lt, testdirectory.WithMTLS(lt))
+		if len(sib.Certificates) == 1 {
+			t.sibling = &sib.Certificates[0]
+		}
+	}()
 	c18Targets[name] = t
 	return t, nil
 }
@@ -177,6 +187,9 @@ func c18Exec(c c18Case, st *lab.Stats) *lab.Fail {
 	ids := make([]int64, n+c.Bystanders)
 	dns := make([]string, n+c.Bystanders)
 	var wg sync.WaitGroup
+	var floodMu sync.Mutex
+	var floodProbes []outcome
+	floodExtra := 0
 	closesBefore := atomic.LoadInt64(tg.onclose)
 	run := func(i int, o c18Offender) {
 		defer wg.Done()
@@ -190,6 +203,42 @@ func c18Exec(c c18Case, st *lab.Stats) *lab.Fail {
 		req := c18Request(op, id, dns[i])
 		var cfg *tls.Config
 		switch o.Kind {
+		case "silent-flood":
+			// many connections that never say anything, held open while a conforming client arrives
+			var held []net.Conn
+			for k := 0; k < 2*runtime.NumCPU()+8; k++ {
+				if cn, err := net.DialTimeout("tcp", tg.addr, 5*time.Second); err == nil {
+					held = append(held, cn)
+				}
+			}
+			time.Sleep(20 * time.Millisecond)
+			var po outcome
+			pid := atomic.AddInt64(&c18Counter, 1) + 1000
+			pdn := fmt.Sprintf("cn=c18-%08d,ou=people,dc=example,dc=org", pid)
+			pop := "search"
+			if c.Target == "dir-mtls" {
+				pop = "add"
+			}
+			if cl, err := lab.DialTLS(tg.addr, tg.validCfg); err != nil {
+				po.detail = "handshake: " + err.Error()
+			} else {
+				po.handshakeOK = true
+				_ = cl.Send(c18Request(pop, pid, pdn))
+				if m, err := cl.Next(5 * time.Second); err == nil && m.ID == pid {
+					po.answered = true
+				} else if err != nil {
+					po.detail = "read: " + err.Error()
+				}
+				cl.Close()
+			}
+			for _, cn := range held {
+				cn.Close()
+			}
+			floodMu.Lock()
+			floodProbes = append(floodProbes, po)
+			floodExtra += len(held)
+			floodMu.Unlock()
+			return
 		case "plaintext", "random", "silent", "partial-hello":
 			conn, err := net.DialTimeout("tcp", tg.addr, 5*time.Second)
 			if err != nil {
@@ -232,6 +281,12 @@ func c18Exec(c c18Case, st *lab.Stats) *lab.Fail {
 			cfg = tg.noCertCfg
 		case "tls-otherca":
 			cfg = &tls.Config{RootCAs: tg.validCfg.RootCAs, ServerName: "localhost", GetClientCertificate: forceCert(alt.Client)}
+		case "tls-siblingca":
+			if tg.sibling == nil {
+				outs[i].detail = "no sibling certificate"
+				return
+			}
+			cfg = &tls.Config{RootCAs: tg.validCfg.RootCAs, ServerName: "localhost", GetClientCertificate: forceCert(*tg.sibling)}
 		case "tls-selfsigned":
 			cfg = &tls.Config{RootCAs: tg.validCfg.RootCAs, ServerName: "localhost", GetClientCertificate: forceCert(selfSigned)}
 		default: // valid
@@ -266,7 +321,13 @@ func c18Exec(c c18Case, st *lab.Stats) *lab.Fail {
 	// let the server finish tearing the connections down
 	if tg.dir == nil {
 		deadline := time.Now().Add(3 * time.Second)
-		for atomic.LoadInt64(tg.onclose)-closesBefore < int64(n+c.Bystanders) && time.Now().Before(deadline) {
+		floods := 0
+		for _, o := range c.Offenders {
+			if o.Kind == "silent-flood" {
+				floods++
+			}
+		}
+		for atomic.LoadInt64(tg.onclose)-closesBefore < int64(n-floods+c.Bystanders+floodExtra+len(floodProbes)) && time.Now().Before(deadline) {
 			time.Sleep(200 * time.Microsecond)
 		}
 	} else {
@@ -287,7 +348,10 @@ func c18Exec(c c18Case, st *lab.Stats) *lab.Fail {
 	}
 	for i, o := range all {
 		// is this behaviour allowed to reach a handler under this configuration?
-		allowed := o.Kind == "valid" || (!tg.mtls && (o.Kind == "tls-nocert" || o.Kind == "tls-otherca" || o.Kind == "tls-selfsigned"))
+		if o.Kind == "silent-flood" {
+			continue // judged through its probe below
+		}
+		allowed := o.Kind == "valid" || (!tg.mtls && (o.Kind == "tls-nocert" || o.Kind == "tls-otherca" || o.Kind == "tls-selfsigned" || o.Kind == "tls-siblingca"))
 		ran := false
 		if tg.dir == nil {
 			_, ran = tg.entered.Load(ids[i])
@@ -305,6 +369,12 @@ func c18Exec(c c18Case, st *lab.Stats) *lab.Fail {
 			return lab.Failf("valid-client-not-served", "%s: a conforming client was not served (handler ran=%v, answered=%v)", desc, ran, outs[i].answered)
 		}
 	}
+	for _, po := range floodProbes {
+		st.Class("flood-probe")
+		if !po.answered {
+			return lab.Failf("valid-client-not-served:behind-silent-connections", "%s: a conforming client was not served while %d connections that never sent a byte were open (handshake ok=%v, %s): those attempts must end only their own connection", c.Target, 2*runtime.NumCPU()+8, po.handshakeOK, po.detail)
+		}
+	}
 	st.Sample(c)
 	return nil
 }
@@ -319,10 +389,11 @@ func forceCert(c tls.Certificate) func(*tls.CertificateRequestInfo) (*tls.Certif
 
 func TestC18(t *testing.T) {
 	ops := []string{"bind", "search", "modify", "add", "delete", "extended", "unbind"}
-	kinds := []string{"plaintext", "plaintext", "random", "silent", "partial-hello", "tls-nocert", "tls-otherca", "tls-selfsigned", "valid"}
+	kinds := []string{"plaintext", "plaintext", "random", "silent", "partial-hello", "tls-nocert", "tls-otherca", "tls-siblingca", "tls-selfsigned", "valid",
+		"plaintext", "random", "silent", "partial-hello", "tls-nocert", "tls-otherca", "tls-siblingca", "tls-selfsigned", "valid", "silent-flood"}
 	lab.Prop[c18Case]{
 		ID: "C18", Part: "tls-gate",
-		Rule: "rapid: targets = gldap.Server with the repository's own GetTLSConfig (server-auth only / WithMTLS) and a testdirectory.Directory started WithMTLS; 1..6 concurrent offenders per case = plaintext request of each of the 7 operations, random bytes, connect-and-stay-silent, partial ClientHello cut at a generated offset, TLS client without certificate, with a certificate of another CA, self-signed, plus the valid client, alongside 1..4 conforming bystanders; oracle = no handler entry (plain servers: recording handler keyed by reserved message IDs; directory: the Add the offender sent has no effect visible to a conforming client) and no response for offenders, bystanders and valid clients served; non-trivial = an offender that got as far as sending an LDAP request; distinct by hash of (target, offender)",
+		Rule: "rapid: targets = gldap.Server with the repository's own GetTLSConfig (server-auth only / WithMTLS) and a testdirectory.Directory started WithMTLS; 1..6 concurrent offenders per case = plaintext request of each of the 7 operations, random bytes, connect-and-stay-silent, partial ClientHello cut at a generated offset, TLS client without certificate, with a certificate of another CA, of a sibling deployment made by the same generator (same subject and serial, different CA key), self-signed, a flood of 2*NumCPU+8 silent connections held open while a conforming client arrives, plus the valid client, alongside 1..4 conforming bystanders; oracle = no handler entry (plain servers: recording handler keyed by reserved message IDs; directory: the Add the offender sent has no effect visible to a conforming client) and no response for offenders, bystanders and valid clients served; non-trivial = an offender that got as far as sending an LDAP request; distinct by hash of (target, offender)",
 		Gen: func(t *rapid.T) c18Case {
 			c := c18Case{
 				Target:     rapid.SampledFrom([]string{"server-tls", "server-mtls", "server-mtls", "dir-mtls", "dir-mtls"}).Draw(t, "target"),
